@@ -20,6 +20,7 @@ EXPLANATION = (
     "the private attributes the operator helpers read. NOT decided: the clamp table values (C15), "
     "normalisation in gaps/overlaps (C02)."
     ' Also: the DAYS_PER_MONTHS rows / is_leap rule the clamp relies on, and the weeks/remaining_days breakdown of Duration.__new__ that `+ Duration` consumes.'
+    ' As built: ADD.tabulated and SHIFT.tabulated (see C03) decide add_duration and DateTime.add/Date.add on values; the operand-kind arms of + and - are read off function leaves.'
 )
 
 COMP = {  # add()/subtract() parameter -> Duration accessor
